@@ -160,6 +160,19 @@ def cases(draw):
     repl = {}
     for name in draw(st.sets(st.sampled_from(FIELDS))):
         repl[name] = draw(payloads()) if name == "payload" else draw(header_values())
+    if draw(st.integers(0, 2)) == 0:
+        # the original comes off the wire and has fields assigned / is re-decoded before it is copied
+        assigned = {}
+        for name in draw(st.sets(st.sampled_from(FIELDS), min_size=1)):
+            assigned[name] = draw(payloads()) if name == "payload" else {"k": "int", "v": draw(st.integers(-3, 300))}
+        return {
+            "kind": "copy_wire",
+            "line": ";".join([str(draw(st.integers(-3, 300))) for _ in range(5)] + [draw(payloads())]),
+            "assign": assigned,
+            "redecode": ";".join([str(draw(st.integers(0, 255))) for _ in range(5)] + [draw(payloads())]) if draw(st.booleans()) else None,
+            "how": draw(st.sampled_from(["setattr", "modify"])),
+            "replace": repl,
+        }
     return {
         "kind": "copy",
         "head": [draw(header_values()) for _ in range(5)],
@@ -278,6 +291,31 @@ def check_case(case, stats=None):
             raise Violation("copy.gateway", case, "copy lost the gateway reference")
         if stats is not None:
             stats.case(common.chash(case) if repl else None, case, labels=("copy",))
+        return
+    if kind == "copy_wire":
+        msg = Message(case["line"])
+        if case["redecode"] is not None:
+            msg.decode(case["redecode"])
+        assign = {k: (v if k == "payload" else realise(v)) for k, v in case["assign"].items()}
+        if case["how"] == "modify":
+            msg.modify(**assign)
+        else:
+            for key, val in assign.items():
+                setattr(msg, key, val)
+        before = six(msg)
+        repl = {k: (v if k == "payload" else realise(v)) for k, v in case["replace"].items()}
+        cpy = msg.copy(**repl)
+        if six(msg) != before:
+            raise Violation("copy.mutates_original", case, f"original became {six(msg)!r}")
+        for i, name in enumerate(FIELDS):
+            want = repl[name] if name in repl else before[i]
+            got = getattr(cpy, name)
+            if got != want:
+                raise Violation("copy.stale_field", case, f"{name}: copy has {got!r}, the original currently holds {want!r} (fields were assigned after decoding)")
+        if cpy.encode() != codec.encode(tuple(int(x) for x in six(cpy)[:5]) + (six(cpy)[5],)):
+            raise Violation("copy.encode", case, f"copy encodes to {cpy.encode()!r}")
+        if stats is not None:
+            stats.case(common.chash(case), case, labels=("copy-wire",))
         return
     raise common.HarnessError(f"unknown case kind {kind}")
 
